@@ -116,6 +116,24 @@ PROPS = {
         assumptions=COMMON_ASSUME + ["payload lengths >= 1 (the property's range); zero-length designations are counted as don't-care"],
         targets=[enum("enum", ["props/C13_enum.cpp"], qs=12, ts=16)],
     ),
+    "C10": dict(
+        level="exploration",
+        exhaustive_possible=False,
+        rule="cases are configurations (data size, placement, checksum algorithm, aux-buffer size, set-up order) each run through a battery: full store, every (offset,length) partial "
+             "store/fetch incl. refused and overflow pairs, every single-octet alteration, reset; oracle = model image + reference checksum over the whole image + access log; "
+             "non-trivial = aux buffer smaller than the data or non-zero placement; distinct by configuration",
+        assumptions=COMMON_ASSUME + ["the medium callbacks behave (full transfers) in C10; faults are C11's subject"],
+        targets=[enum("enum", ["props/C10_enum.cpp"], qs=12, ts=16)],
+    ),
+    "C11": dict(
+        level="fault_enumeration",
+        exhaustive_possible=True,
+        rule="cases are (configuration, operation, crash point) and (configuration, operation, medium-call index, fault kind) tuples; crash point = number of octets the medium accepts "
+             "before the cut (all whole-write prefixes and all torn positions); non-trivial = a crash point strictly inside the operation or a fault at a call index other than the first; "
+             "distinct by the serialised case",
+        assumptions=COMMON_ASSUME + ["a torn write leaves a prefix of the write on the medium (octet granularity); one fault per operation"],
+        targets=[enum("enum", ["props/C11_enum.cpp"], qs=12, ts=16)],
+    ),
 }
 
 NOTE_COMMON = ("trusted: clang/ASan/UBSan, the harness and its reference model; the search is bounded (see evidence: tier bounds and counts); "
@@ -183,6 +201,22 @@ MANIFEST_TEXT = {
         level_text="All eight encoder entry points and three decoders are driven for all six prefix kinds: every buffer state of small buffers (so that unread content and free space differ), "
                    "every n, chunk lists with empty/partly consumed chunks, lengths 1..1100 and the kinds' maxima +-1, and every fragmentation of short multi-frame streams; sinks and destinations "
                    "are recorded/exact-size so emitted and written octets are compared exactly.",
+        level_note=NOTE_COMMON,
+    ),
+    "C10": dict(
+        engine="enum",
+        technique="bounded-exhaustive configuration grid x operation battery on a logging medium, against a model image and reference checksums (differential over aux-buffer sizes)",
+        level_text="Every configuration of a grid (sizes 1..24, thorough 1..64; four placements; trivial sum, CRC-16/ARC and a 32-bit sum; every aux-buffer size 0..size+1; both set-up orders) "
+                   "is driven through stores, every partial access incl. arithmetic-overflow pairs, every single-octet alteration and resets; the medium logs every access so that region "
+                   "confinement and 'refused without touching the medium' are observed, and a call budget turns a non-terminating chunk loop into a deterministic failure.",
+        level_note=NOTE_COMMON,
+    ),
+    "C11": dict(
+        engine="enum (fault injection)",
+        technique="exhaustive crash-point and single-fault enumeration per configuration on a scripted medium; oracle: reference checksum of the medium image vs validate verdict, old/new image at write granularity",
+        level_text="For each configuration of a reduced grid every crash point of every store (each octet position of each medium write, so whole-write prefixes and torn writes) is executed, "
+                   "then a fresh instance validates and fetches; independently a failing or short medium call is injected at every call index of every operation. The enumeration is "
+                   "complete per configuration and operation; configurations are a bounded grid.",
         level_note=NOTE_COMMON,
     ),
 }
